@@ -89,11 +89,17 @@ PREFIXES = {
     'sticky': 'Note n {\n  ',
     'default': 'Table t {\n  c int [default: ',
     'header': 'Table t [',
+    'group_quoted': 'Table t {\n  c int\n}\nTableGroup g {\n  "',
+    'type_quoted': 'Table t {\n  c "',
+    'ref_quoted': 'Table t {\n  c int\n}\nRef: t.c > t."',
+    'project_name': 'Project "',
+    'group_name': 'Table t {\n  c int\n}\nTableGroup "',
 }
 SUFFIXES = {
     'note': "']\n}\n", 'note3': "'''\n}\n", 'col_settings': ']\n}\n', 'col_type': '\n}\n', 'col_type_paren': ')\n}\n', 'table_open': '\n}\n',
     'enum': '\n}\n', 'index': '\n  }\n}\n', 'project': '\n}\n', 'group': '\n}\n', 'sticky': '\n}\n', 'default': ']\n}\n',
     'header': '] {\n c int\n}\n', 'ref': '\n', 'ref_comment': '\n',
+    'group_quoted': '".t\n}\n', 'type_quoted': '"\n}\n', 'ref_quoted': '"\n', 'project_name': '" {\n  k: \'v\'\n}\n', 'group_name': '" {\n  t\n}\n',
 }
 
 
